@@ -119,7 +119,8 @@ func CheckVectorRows(c VecContext, q VecQuery, rows []drive.Row, exact bool) err
 		}
 		wantHybrid := -1 * weight * got
 		wantHybrid2 := -1 * got * weight
-		if r.Hybrid != wantHybrid && r.Hybrid != wantHybrid2 {
+		// (weight 0 times an infinite distance is NaN on both sides)
+		if r.Hybrid != wantHybrid && r.Hybrid != wantHybrid2 && !(r.Hybrid != r.Hybrid && wantHybrid != wantHybrid) {
 			return fmt.Errorf("row %d: hybrid score %v, want -weight*distance = %v (weight %v distance %v)", i, r.Hybrid, wantHybrid, weight, got)
 		}
 		if r.Score != nil {
